@@ -1202,8 +1202,9 @@ _BASIC_CONVERTERS: t.Dict[type, Converter[t.Any]] = {
     int: ScalarConverter(int, int, 'an int', 'ints', int),
     bool: ScalarConverter(bool, bool, 'a bool', 'bools', bool),
     str: ScalarConverter(str, str, 'a string', 'strings', str),
-    bytes: ScalarConverter(bytes, (bytes, bytearray), 'a bytestring', 'bytestrings'),
-    bytearray: ScalarConverter(bytearray, (bytes, bytearray), 'a bytearray', 'bytearrays'),
+    # (written as exact `bytes`: a bytearray, or an instance of a subclass, is no interchange value)
+    bytes: ScalarConverter(bytes, (bytes, bytearray), 'a bytestring', 'bytestrings', bytes),
+    bytearray: ScalarConverter(bytearray, (bytes, bytearray), 'a bytearray', 'bytearrays', bytes),
     type(None): NoneConverter(),
     datetime.datetime: DatetimeConverter(datetime.datetime),
     datetime.time: DatetimeConverter(datetime.time),
